@@ -16,6 +16,7 @@ import (
 	"encoding/base64"
 	"encoding/xml"
 	"errors"
+	"fmt"
 	"sync"
 
 	"mellium.im/xmlstream"
@@ -293,6 +294,22 @@ func open(ctx context.Context, h *Handler, acked bool, s *xmpp.Session, start st
 	}
 	/* #nosec */
 	defer resp.Close()
+
+	// Only a result means that the other side accepted the stream.
+	// The response is kept open until the stream has been registered so that
+	// data sent right after the acceptance finds it.
+	tok, err := resp.Token()
+	if err != nil {
+		return nil, err
+	}
+	respStart, ok := tok.(xml.StartElement)
+	if !ok {
+		return nil, fmt.Errorf("ibb: expected IQ start token, got %T %[1]v", tok)
+	}
+	_, err = stanza.UnmarshalIQError(resp, respStart)
+	if err != nil {
+		return nil, err
+	}
 
 	conn, err := newConn(h, s, iq, false, MaxBufferSize), nil
 	if err != nil {
